@@ -195,12 +195,14 @@ def h_eth(ctx, part):
     else: txt = t.join(':', [t.fmt('%x', (x,)) for x in b])
     ctx.check('accepted form parses to the same address', A.EthAddr(txt) == a)
   elif part == 'malformed':
-    k = int(ctx.int('kind', 0, 3))
+    k = int(ctx.int('kind', 0, 5))
     g = [t.fmt('%02x', (x,)) for x in b]
     if k == 0: txt = t.join(':', g[:5])                       # five groups
     elif k == 1: txt = t.join(':', g[:5] + ['g' + t.fmt('%x', (b[5] & 15,))])   # bad hex digit
     elif k == 2: txt = t.join(':', g) + ':'                          # trailing separator
-    else: txt = t.join(':', [t.fmt('%x', (x,)) for x in b[:5]] + [t.fmt('%x', (ctx.int('big', 0x100, 0xfff),))])    # a group that is not an octet
+    elif k == 3: txt = t.join(':', [t.fmt('%x', (x,)) for x in b[:5]] + [t.fmt('%x', (ctx.int('big', 0x100, 0xfff),))])    # a group that is not an octet
+    elif k == 4: txt = t.join(':', g[:5] + ['+' + t.fmt('%x', (b[5] & 15,))])                      # a sign where a digit belongs (two-digit form)
+    else: txt = t.join(':', [t.fmt('%x', (x,)) for x in b[:5]] + [' ' + t.fmt('%x', (b[5] & 15,))])  # a blank inside a group (relaxed form)
     ctx.check('malformed text rejected', raises(lambda: A.EthAddr(txt), Exception))
 
 
@@ -339,7 +341,7 @@ def h_ipv6(ctx, part, pattern=0, free=(0,)):
     ctx.check('is_ipv4_mapped', m.is_ipv4_mapped is True or bool(m.is_ipv4_mapped))
     ctx.check('to_ipv4() gives the address back', m.to_ipv4() == x4)
   elif part == 'malformed':
-    for txt in ('1::2::3', '1:2:3:4:5:6:7:8:9', '12345::1', 'g::1', '1.2.3.4', ':::', '1:2:3', '1:2:3:4:5:6:7', ':1:2:3:4:5:6:7', '1:2:3:4:5:6:7:', '1:2:3:4:5:1.2.3.4', ':1::2', '1::2:'):
+    for txt in ('1::2::3', '1:2:3:4:5:6:7:8:9', '12345::1', 'g::1', '1.2.3.4', ':::', '1:2:3', '1:2:3:4:5:6:7', ':1:2:3:4:5:6:7', '1:2:3:4:5:6:7:', '1:2:3:4:5:1.2.3.4', ':1::2', '1::2:', '1_0::', '+1::', ' 1::', '1::-0', '::/64'):
       ctx.check('malformed %s rejected' % txt, raises(lambda: A.IPAddr6(txt), Exception))
 
 
@@ -379,6 +381,14 @@ def h_forms(ctx, typ, form):
     buf[(pos + 1) % n] ^= 0x01
     ctx.check('unchanged when the source buffer is modified afterwards', a == ref and raw_of(a) == bytes(vals) and text(a) == before)
   ctx.check('attribute assignment rejected', raises(lambda: setattr(a, '_value', r), TypeError))
+  # ... and there is no way round it through deletion (del a._value; a._value = other)
+  def swap():
+    try: delattr(a, '_value')
+    except (TypeError, AttributeError): return False
+    try: setattr(a, '_value', r)
+    except (TypeError, AttributeError): pass
+    return True
+  ctx.check('attribute deletion rejected', swap() is False and a == ref and text(a) == before)
   ctx.witness('done')
 
 
